@@ -455,6 +455,58 @@ class Callables:
 ALL_STYLES = [(c, s, p) for c in (False, True) for s in ("jit", "nojit", "vec") for p in (False, True)]
 
 
+# ----------------------------------------------------------------------------- second worker (edge-element family)
+# The wall time of this check is Numba compilation, which is serial inside one process. The cases on vector-valued (edge) spaces
+# therefore run in a second process ("--worker vec") beside the scalar ones; its findings are re-reported here under the same
+# mechanism keys and its coverage counts are merged before the obligations are evaluated.
+
+
+def spawn_part(ctx, name):
+    import os
+    import subprocess
+    import sys
+    from vlib.verdict import VERIF
+
+    out = os.path.join(VERIF, ".work", "%s.%s.%d.json" % (ctx.pid, name, os.getpid()))
+    os.makedirs(os.path.dirname(out), exist_ok=True)
+    env = dict(os.environ)
+    env["PYTHONPATH"] = VERIF + os.pathsep + env.get("PYTHONPATH", "")
+    cmd = [sys.executable, "-X", "faulthandler", "-m", "checks.C13", "--worker", name, "--out", out, "--tier", ctx.tier, "--seed", str(ctx.seed)]
+    log = open(out + ".log", "w")
+    return {"name": name, "proc": subprocess.Popen(cmd, cwd=VERIF, env=env, stdout=log, stderr=subprocess.STDOUT), "out": out, "log": log}
+
+
+def join_part(ctx, w):
+    import contextlib
+    import json
+    import os
+    import subprocess
+    import time
+
+    budget = 1500 if ctx.quick else 3 * 3600
+    res, tail = None, ""
+    try:
+        rc = w["proc"].wait(timeout=max(60, budget - (time.time() - ctx.t0)))
+    except subprocess.TimeoutExpired:
+        w["proc"].kill()
+        ctx.inconclusive.append("%s worker timed out" % w["name"])
+        rc = None
+    w["log"].close()
+    with contextlib.suppress(OSError):
+        with open(w["out"] + ".log") as f:
+            tail = f.read()[-3000:]
+    if rc is not None and os.path.exists(w["out"]):
+        with contextlib.suppress(Exception):
+            with open(w["out"]) as f:
+                res = json.load(f)
+    for pth in (w["out"], w["out"] + ".log"):
+        with contextlib.suppress(OSError):
+            os.remove(pth)
+    if rc is not None and res is None:
+        ctx.violation("%s_worker:crash" % w["name"], "%s worker exited with %s and no result\n%s" % (w["name"], rc, tail))
+    return res
+
+
 # ----------------------------------------------------------------------------- the check
 
 
@@ -489,21 +541,35 @@ def main():
     if san:
         pool = pool[:2]
     partial_run = ctx.only_case is not None or bool(ctx.args.only)
+    # family split (see spawn_part): parent = scalar spaces, worker "vec" = edge spaces; replays / --only runs and the sanitizer worker do both
+    vec = ctx.worker == "vec"
+    split = not ctx.worker and not partial_run
+    vec_worker = spawn_part(ctx, "vec") if split else None
+
+    def mine(kind):
+        vector = kind in ("RWG", "SNC", "BC", "RBC")
+        if vec:
+            return vector
+        if split:
+            return not vector
+        return True
 
     # (test, trial) pairs; the quick tier leaves out three kernel specialisations (JIT time), the thorough tier has all
     scalar_pairs = [("DP0", "DP0"), ("P1", "P1"), ("DP1", "P1"), ("P1", "DP1"), ("DP1", "DP1"), ("P1", "DP0"), ("DP1", "DP0"), ("DP0", "P1"), ("DP0", "DP1")]
     vector_pairs = [("RWG", "RWG"), ("SNC", "RWG"), ("SNC", "SNC")]
     if ctx.quick:
-        # JIT budget of the quick tier (5-20 s per kernel specialisation): p0 test x p1 trial, rwg test x snc trial and snc x snc are left to
-        # the thorough tier; where a quick case would need the SNC mass matrix (l2_norm, coefficients of a projection) that part is skipped
+        # JIT budget of the quick tier (the wall time of this check is almost entirely Numba compilation, 5-20 s per kernel specialisation):
+        # p0 test x p1 trial and every pair with SNC are left to the thorough tier; where a quick case would need an SNC mass matrix
+        # (l2_norm, coefficients of a projection, projections onto / from SNC) that part is skipped. SNC itself is exercised in the quick tier
+        # through projections of callables (vs M_ref c), integrate and the evaluate* functions.
         scalar_pairs = scalar_pairs[:-2]
-        vector_pairs = vector_pairs[:-1]
+        vector_pairs = vector_pairs[:1]
     else:
         vector_pairs += [("RWG", "SNC")]
     snc_mass = ("SNC", "SNC") in vector_pairs
     all_pairs = scalar_pairs + vector_pairs
     # the sanitizer-build worker repeats a sub-set of the parent's cases (same case ids, same draws) with fewer kernel specialisations
-    san_pairs = {("P1", "P1"), ("DP1", "P1"), ("P1", "DP1"), ("DP1", "DP1"), ("SNC", "RWG"), ("RWG", "RWG")}
+    san_pairs = {("P1", "P1"), ("DP1", "P1"), ("P1", "DP1"), ("DP1", "DP1"), ("RWG", "RWG")}
     san_orders = (2, 8, 20)
     seen = {"pairs": set(), "orders": set(), "styles": set(), "segment_identity": 0, "segment_projection": 0, "segment_gf": 0, "edge_identity": 0,
             "edge_projection": 0, "edge_gf": 0, "lb": 0, "mult": 0, "mult_partial": 0, "bary": 0, "spd": 0, "area_sum": 0, "complex_gf": 0}
@@ -552,7 +618,7 @@ def main():
 
     # ================================================================ identity
     def identity_case(cid, mname, mesh, grid, topo, closed, tk, sk, ot, os_, orders, spd=False, scope=False):
-        if not ctx.want(cid):
+        if not ctx.want(cid) or not mine(tk):
             return
         if san:
             if not scope or (tk, sk) not in san_pairs:
@@ -614,7 +680,7 @@ def main():
 
     # ================================================================ Laplace-Beltrami
     def lb_case(cid, mname, mesh, grid, topo, closed, tk, sk, ot, os_, orders, same=False, scope=False):
-        if not ctx.want(cid):
+        if not ctx.want(cid) or not mine(tk):
             return
         if san:
             if not scope:
@@ -727,7 +793,7 @@ def main():
             sname = Callables.style_name(cplx, style, param)
             cid = "proj:%s:%s:%s:%s:v%d" % (mname, sname, body, kind, variant)
             scope = ri in scope_ids
-            if not ctx.want(cid) or (san and not scope):
+            if not ctx.want(cid) or (san and not scope) or not mine(kind):
                 continue
             rng = ctx.rng(mname, "proj", sname, body, kind, variant)
             order = int(rng.choice([2, 3, 4, 5, 7, 10, 16, 20])) if variant else 4
@@ -795,7 +861,7 @@ def main():
 
     # ================================================================ functionals of a grid function
     def gf_case(cid, mname, mesh, grid, topo, kind, opts, cplx, dual_kind, dual_opts, scope=False):
-        if not ctx.want(cid) or (san and not scope):
+        if not ctx.want(cid) or (san and not scope) or not mine(kind):
             return
         rng = ctx.rng(cid)
         with ctx.guard(cid, "grid_function:%s" % kind, allow=S.ALLOWED_REJECTIONS):
@@ -887,7 +953,7 @@ def main():
 
     # ================================================================ multiplication operator
     def mult_case(cid, mname, mesh, grid, topo, gk, dk, tk, og, od, ot, cplx, mode):
-        if not ctx.want(cid):
+        if not ctx.want(cid) or not mine(gk):
             return
         rng = ctx.rng(cid)
         built = []
@@ -925,7 +991,7 @@ def main():
 
     # ================================================================ barycentric pairs
     def bary_case(cid, mname, mesh, grid, topo, tk, sk, ot, os_, orders, spd=False):
-        if not ctx.want(cid):
+        if not ctx.want(cid) or not mine(tk):
             return None
         result = [None]
         with ctx.guard(cid, "identity_barycentric:%sx%s" % (tk, sk), allow=S.ALLOWED_REJECTIONS):
@@ -1029,14 +1095,14 @@ def main():
 
         # ---- projection of callables
         if ctx.quick:
-            base = [("fix_affine", False, "jit", False, "P1", 1), ("fix_domconst", True, "jit", False, "DP0", 3), ("fix_planar", False, "jit", False, "RWG", 1),
-                    ("elem_v", False, "jit", True, "RWG", 2), ("elem_vn", True, "jit", True, "SNC", 3),
-                    ("elem_s", False, "nojit", False, "P1", 4), ("elem_vn", True, "nojit", False, "SNC", 5),
-                    ("elem_s", False, "nojit", True, "DP0", 2), ("elem_s", True, "nojit", True, "DP1", 5),
+            # quick: 5 compiled callables (each costs a compilation of _project_function) + the 4 vectorised styles; all 12 styles in the thorough tier
+            base = [("fix_affine", False, "jit", False, "P1", 1), ("fix_planar", False, "jit", False, "RWG", 1),
+                    ("elem_vn", True, "jit", True, "SNC", 3),
+                    ("elem_s", False, "nojit", False, "P1", 4), ("elem_s", True, "nojit", True, "DP1", 5),
                     ("elem_v", False, "vec", False, "RWG", 6), ("elem_s", True, "vec", False, "DP1", 0),
                     ("elem_s", False, "vec", True, "P1", 3), ("elem_s", True, "vec", True, "DP0", 1)]
             recipes = [(b, c, s, p, k, (v + mi) % 8 if not b.startswith("fix_planar") else (v + mi) % 3) for (b, c, s, p, k, v) in base]
-            scope_ids = {0, 3, 9, 12} if mi == 0 else ({5, 6} if mi == 1 else set())
+            scope_ids = {0, 5, 8} if mi == 0 else ({3, 2} if mi == 1 else set())
         else:
             recipes = []
             scal_k = ["DP0", "DP1", "P1"]
@@ -1073,7 +1139,8 @@ def main():
                     dopts["swapped_normals"] = opts["swapped_normals"]
                 else:
                     dopts.pop("swapped_normals", None)
-                gf_case("G:%s:%s:v%d" % (mname, kind, vi), mname, mesh, grid, topo, kind, opts, bool((vi + mi) % 2), dk, dopts, scope=mi < 2 and vi < 2 and kind in ("P1", "RWG"))
+                cplx = bool((vi + mi) % 2) and (not ctx.quick or kind in ("P1", "RWG"))
+                gf_case("G:%s:%s:v%d" % (mname, kind, vi), mname, mesh, grid, topo, kind, opts, cplx, dk, dopts, scope=mi < 2 and vi < 2 and kind in ("P1", "RWG"))
         ctx.lap("grid_function")
 
         # ---- multiplication operator
@@ -1102,11 +1169,11 @@ def main():
             ctx.lap("multiplication_operator")
 
         # ---- barycentric pairs on the small meshes
-        if mesh.ne <= 40 and not san and (mi < 2 if ctx.quick else mi % 3 == 0):
-            bo = [2, 5] if ctx.quick else [2, 3, 9, 20]
-            # (building the BC/RBC spaces costs ~40 s of JIT: thorough tier only)
+        if mesh.ne <= 40 and not san and not ctx.quick and mi % 3 == 0:
+            # (thorough tier only: building the barycentric spaces and representations costs about a minute of JIT)
+            bo = [2, 3, 9, 20]
             bary = [("P1", "DUAL0", [1] + bo), ("DUAL0", "DUAL0", [1] + bo)]
-            if not ctx.quick:
+            if True:
                 bary += [("RBC", "RWG", bo), ("SNC", "BC", bo), ("BC", "BC", bo), ("DUAL0", "P1", [1] + bo), ("RBC", "RBC", bo), ("DUAL1", "DUAL1", bo), ("DUAL1", "DP0", bo), ("RWG", "RBC", bo), ("BC", "SNC", bo), ("DUAL0", "DUAL1", bo)]
             keep = {}
             for bi, (tk, sk, orders) in enumerate(bary):
@@ -1135,6 +1202,36 @@ def main():
     ctx.note("wall_by_mesh_s (the first meshes carry the JIT compilation)", wall_by_mesh)
 
     # ================================================================ coverage
+    if vec_worker is not None:
+        res = join_part(ctx, vec_worker)
+        if res is not None:
+            wn = res.get("notes", {})
+            ws = wn.get("seen", {})
+            seen["pairs"] |= {tuple(p_) for p_ in ws.get("pairs", [])}
+            seen["orders"] |= set(ws.get("orders", []))
+            seen["styles"] |= set(ws.get("styles", []))
+            for k_, v_ in ws.get("counts", {}).items():
+                seen[k_] += v_
+            for k_, v_ in wn.get("worst_rel_dev", {}).items():
+                wmax(k_, v_)
+            for k_, v_ in (res.get("counters") or {}).items():
+                ctx.count(k_, v_)
+            for v_ in res.get("violations", []):
+                ctx.violation(v_["mechanism"], v_["message"], case_id=v_.get("case_id"))
+            for m_, k_ in res.get("known_hits", {}).items():
+                kk = ctx.known_hits.setdefault(m_, {"what": k_.get("what", ""), "count": 0, "first": k_.get("first")})
+                kk["count"] += k_["count"]
+            ctx._diff.update(res.get("diff") or {})          # the sanitizer worker's edge-space results are compared with these
+            ctx.evaluations += int(res.get("evaluations", 0))
+            ctx._distinct.update("vec:%d" % i_ for i_ in range(int(wn.get("distinct", 0))))
+            ctx.note("worker_vec", {"cases": res.get("evaluations"), "wall_s": res.get("wall_s"), "wall_by_phase_s": wn.get("wall_by_phase_s"),
+                                    "launch_recorder": wn.get("launch_recorder"), "violations": len(res.get("violations", []))})
+            if res.get("evaluations", 0) == 0:
+                ctx.inconclusive.append("vec worker observed no case")
+    if vec:
+        ctx.note("seen", {"pairs": sorted(seen["pairs"]), "orders": sorted(seen["orders"]), "styles": sorted(seen["styles"]),
+                          "counts": {k: v for k, v in seen.items() if isinstance(v, int)}})
+        ctx.note("distinct", len(ctx._distinct))
     ctx.note("worst_rel_dev", worst)
     ctx.note("launch_recorder", rec.summary())
     ctx.note("pairs_compared_at_exact_orders", sorted("%sx%s" % p for p in seen["pairs"]))
@@ -1144,8 +1241,15 @@ def main():
     free = partial_run or bool(ctx.worker)
     ctx.obligation("every mesh has element areas spread >= 4x", all(v >= 4.0 for v in spreads.values()), {k: round(v, 1) for k, v in spreads.items()})
     want_styles = {Callables.style_name(*s) for s in ALL_STYLES}
-    ctx.obligation("each callable style exercised (real/complex x jit/non-jit/vectorised x parameterised or not)", free or seen["styles"] >= want_styles,
-                   sorted(want_styles - seen["styles"]))
+    if ctx.quick:
+        flags = set()
+        for st in seen["styles"]:
+            flags |= set(st.split("_"))
+        ctx.obligation("callable styles: each of real / complex / jit / nonjit / vectorized / param exercised, at least 8 of the 12 combinations (all 12 in the thorough tier)",
+                       free or (flags >= {"real", "complex", "jit", "nonjit", "vectorized", "param"} and len(seen["styles"]) >= 8), sorted(seen["styles"]))
+    else:
+        ctx.obligation("each callable style exercised (real/complex x jit/non-jit/vectorised x parameterised or not)", free or seen["styles"] >= want_styles,
+                       sorted(want_styles - seen["styles"]))
     ctx.obligation("identity compared for every enabled (test, trial) pair", free or seen["pairs"] >= set(all_pairs), sorted("%sx%s" % p for p in set(all_pairs) - seen["pairs"]))
     ctx.obligation("segment / support_elements spaces exercised in identity, projection, grid functions and the multiplication operator",
                    free or min(seen["segment_identity"], seen["segment_projection"], seen["segment_gf"], seen["mult_partial"]) > 0,
@@ -1155,8 +1259,8 @@ def main():
     need_orders = set(sweep_orders) - {1}
     ctx.obligation("quadrature orders swept (%s)" % ("2..20" if not ctx.quick else "subset of 2..20; all of 1..20 in the thorough tier"), free or seen["orders"] >= need_orders,
                    sorted(need_orders - seen["orders"]))
-    ctx.obligation("Laplace-Beltrami, SPD, area-sum, complex coefficient and barycentric cases observed",
-                   free or min(seen["lb"], seen["spd"], seen["area_sum"], seen["complex_gf"], seen["bary"], seen["mult"]) > 0,
+    ctx.obligation("Laplace-Beltrami, SPD, area-sum, complex coefficient, multiplication operator%s cases observed" % ("" if ctx.quick else " and barycentric"),
+                   free or min(seen["lb"], seen["spd"], seen["area_sum"], seen["complex_gf"], seen["bary"] + (1 if ctx.quick else 0), seen["mult"]) > 0,
                    {k: seen[k] for k in ("lb", "spd", "area_sum", "complex_gf", "bary", "mult")})
     ctx.obligation("sparse launches recorded", free or rec.summary()["launches"].get("sparse:default_sparse_kernel", 0) > 0 or any(k.startswith("sparse:") for k in rec.summary()["launches"]),
                    rec.summary()["launches"])
